@@ -948,3 +948,100 @@ pub fn c07_case(case: &Value, acc: &mut CompAcc) {
         }
     }
 }
+
+// ------------------------------------------------------------------------------------------------
+// C16 (value types): the internal overhead is size_of::<StoreItem<V>>() for every V
+
+pub fn c16_type_cases() -> Vec<Value> {
+    let mut v = Vec::new();
+    for ty in ["u64", "u8x32", "string", "unit", "vec"] {
+        for ignore in [true, false] {
+            for cost in [0i64, 1, 5] {
+                v.push(json!({"type": ty, "ignore_internal_cost": ignore, "cost": cost}));
+            }
+        }
+    }
+    v
+}
+
+struct ConstCoster<V>(i64, std::marker::PhantomData<fn(V)>);
+impl<V: Send + Sync + 'static> stretto::Coster for ConstCoster<V> {
+    type Value = V;
+    fn cost(&self, _: &V) -> i64 {
+        self.0
+    }
+}
+
+fn c16_probe<V: Send + Sync + Clone + 'static>(mk: fn(u32) -> V, ignore: bool, cost: i64) -> Result<(i64, i64, i64, usize), String> {
+    use crate::model::FixedState;
+    use std::sync::{Arc, Mutex};
+    use stretto_verif_rt as rt;
+    let out: Arc<Mutex<Option<(i64, i64, i64, usize)>>> = Arc::new(Mutex::new(None));
+    let o2 = out.clone();
+    let res = rt::explore(
+        rt::ExploreCfg { bound: 0, ..Default::default() },
+        Arc::new(move || {
+            rt::world::setup_mode();
+            let c: stretto::Cache<u64, V, stretto::TransparentKeyBuilder<u64>, ConstCoster<V>, stretto::DefaultUpdateValidator<V>, stretto::DefaultCacheCallback<V>, FixedState> =
+                stretto::Cache::builder(64, 1_000_000)
+                    .set_key_builder(stretto::TransparentKeyBuilder::default())
+                    .set_hasher(FixedState::default())
+                    .set_coster(ConstCoster(7, std::marker::PhantomData))
+                    .set_ignore_internal_cost(ignore)
+                    .set_buffer_size(8)
+                    .finalize()
+                    .unwrap();
+            assert!(c.insert(1, mk(1), cost));
+            rt::settle();
+            let first = c.verif_policy().key_costs.iter().find(|k| k.0 == 1).map(|k| k.1).unwrap_or(-1);
+            // update with another explicit cost, then with the coster
+            assert!(c.insert(1, mk(2), cost + 2));
+            rt::settle();
+            let second = c.verif_policy().key_costs.iter().find(|k| k.0 == 1).map(|k| k.1).unwrap_or(-1);
+            assert!(c.insert(1, mk(3), 0));
+            rt::settle();
+            let third = c.verif_policy().key_costs.iter().find(|k| k.0 == 1).map(|k| k.1).unwrap_or(-1);
+            *o2.lock().unwrap() = Some((first, second, third, c.verif_item_size()));
+            rt::world::finish_mode();
+        }),
+    );
+    if let Some(v) = res.violations.first() {
+        return Err(format!("{}: {}", v.kind, v.msg));
+    }
+    let r = out.lock().unwrap().take();
+    r.ok_or_else(|| "no result".to_string())
+}
+
+pub fn c16_type_case(case: &Value, acc: &mut CompAcc) {
+    let ignore = case["ignore_internal_cost"].as_bool().unwrap();
+    let cost = case["cost"].as_i64().unwrap();
+    let ty = case["type"].as_str().unwrap();
+    let (r, isz) = match ty {
+        "u64" => (c16_probe::<u64>(|i| i as u64, ignore, cost), stretto::verif::item_size::<u64>()),
+        "u8x32" => (c16_probe::<[u8; 32]>(|i| [i as u8; 32], ignore, cost), stretto::verif::item_size::<[u8; 32]>()),
+        "string" => (c16_probe::<String>(|i| format!("value-{}", i), ignore, cost), stretto::verif::item_size::<String>()),
+        "unit" => (c16_probe::<()>(|_| (), ignore, cost), stretto::verif::item_size::<()>()),
+        _ => (c16_probe::<Vec<u64>>(|i| vec![i as u64; 100], ignore, cost), stretto::verif::item_size::<Vec<u64>>()),
+    };
+    acc.cases = 1;
+    acc.ops = 3;
+    match r {
+        Err(e) => acc.fail("c16-types-engine", e),
+        Ok((first, second, third, item_size)) => {
+            let internal = if ignore { 0 } else { isz as i64 };
+            let exp1 = (if cost != 0 { cost } else { 7 }) + internal;
+            let exp2 = cost + 2 + internal;
+            let exp3 = 7 + internal;
+            if item_size != isz {
+                acc.fail("wrong-charge", format!("value type {}: the store reports item size {} but size_of::<StoreItem<V>>() is {}", ty, item_size, isz));
+            }
+            if (first, second, third) != (exp1, exp2, exp3) {
+                acc.fail(
+                    "wrong-charge",
+                    format!("value type {} ignore_internal_cost {} cost {}: charged {} / {} / {} after insert / update / coster update, expected {} / {} / {}", ty, ignore, cost, first, second, third, exp1, exp2, exp3),
+                );
+            }
+            acc.state(&(ty, ignore, cost, first, second, third), true);
+        }
+    }
+}
